@@ -11,6 +11,9 @@ DRV = ("The generated parsers are verified as rendered text: on every run an inj
        "goCode and goObject renderings, packed and unpacked, are put under ONE contract text (goObject through renamings) and every obligation is discharged "
        "by SMT; the per-rule reduce cases are replaced mechanically by one schematic case whose holes are tied to the grammar by `emits` obligations on "
        "buildReduceFunc/buildConstPart, and every rendered case must have that shape. ")
+STAGES = ("This end-to-end property also depends on the stages between the grammar and the tables; their contracts are discharged in the same run (`govc -with`) "
+          "and reported under this property: the LR(0) leaf functions (InsertItem, InsertGoTO, CheckIsExist, InsertItemClosure, getItemCloure, ComputeIClosure = least closed "
+          "superset), table splitting and packing (SplitActionAndGotoTable, TrySplitTable: packed lookup == dense table, PackTable, UnPackTable). ")
 DRVNOTE = (TB + "Hypotheses used as axioms (not proved here): the LR(0)-automaton facts AP0-AP2 and the table encoding TC/TCgoto/TC0 (DESIGN §4; postconditions of "
        "GenTable / the LR(0) construction, which are not yet under contract), SIZES, INV-R for goto lookups in packed mode, packed-lookup == dense table "
        "(TrySplitTable's proved postcondition, assumed at the interface). Trusted contracts: translate, GetToken (user code), TraceTranslate, TraceReduce, "
@@ -25,10 +28,11 @@ claimed = {
         "`<symbol>: reduce rule at <r>` for exactly the cells that hold -r, the fill decoration iff the row has the accept code, and the node label is "
         "extended by all reduce fields whenever there is at least one (also in the accepting state). AddEdge / GenDotGraph are proved to pass exactly these "
         "names and labels to gographviz. ShowCloure (debug listing) prints state number, left-hand side, the symbols before/after the dot and `at X goto n` "
-        "from the same structures.",
+        "from the same structures; ShowLookAheadSet / ShowDrSet / ShowReadSet print ONE line per entry of the set map, with the transition and the names of ALL its symbols in order "
+        "(ghost print log), so no reduction or lookahead of the tables is missing from the listing.",
    note=TB + "Trusted: gographviz itself (AddNode makes the node retrievable under its name - an explicit `assumes` clause), graph.NewGraph, ItemToStr's text "
-        "(a deterministic function of rule and dot; the dot placement inside the string is not verified), fmt.Sprintf / strings.* as pure functions. The "
-        "Show*Set listings of DR/Read/Follow/lookahead sets are not under contract.",
+        "(a deterministic function of rule and dot; the dot placement inside the string is not verified), fmt.Sprintf / strings.* as pure functions. showTrans's text is trusted (deterministic). "
+        "ShowFollowSet (prints a []string with %v) is not under contract.",
    design="§5 C18", technique="contract-based deductive verification with a ghost log of external calls"),
  "C02": dict(
    text="Completeness is cut along the pipeline. Deductively proved on the real code: the lookback / includes relations satisfy the DeRemer-Pennello "
@@ -36,9 +40,11 @@ claimed = {
         "node), GenTable encodes each cell as error / accept / shift target / -rule of a transition of that state under its lookahead with column 0 = error "
         "and no zero cell, CheckAndResolveConflict's surviving action is a candidate of its cell, the packed lookup equals the dense table (C05), and the "
         "generated driver executes the table (C01). A BOUNDED stand-in closes the gap end to end: for conflict-free grammars the dense table must equal the "
-        "LALR(1) table built by merging canonical LR(1) states, and the table-driven parse must accept every sentence of length <= 4 found by a bounded derivation search.",
+        "LALR(1) table built by merging canonical LR(1) states, and the table-driven parse must accept every sentence of length <= 4 found by a bounded derivation search. "
+        "Since the first version: lookback and includes are proved COMPLETE as well (every pair that satisfies the DeRemer-Pennello condition is produced), the direct-read sets are "
+        "exact with one array per entry, BuildTrans ties the transition list to the automaton, the generated Action() is verified under this property. " + STAGES,
    note=TB + "NOT proved deductively (bounded stand-in only: 9 fixed grammars + 400 pseudo-random grammars quick / 20000 thorough, <= 5 nonterminals, <= 6 terminals, "
-        "<= 9 rules): Digraph/Traverse, CalcDR, reads, completeness of the relation lists, that GenTable drops no candidate of a conflict-free cell, BuildTrans. "
+        "<= 9 rules): Digraph/Traverse, the reads relation, CalcLookAheadSet, that GenTable drops no candidate of a conflict-free cell, the worklist of the LR(0) construction. "
         "Literature theorems used, not mechanised: DeRemer-Pennello, and that LALR(1) tables accept exactly L(G).",
    design="§5 C02", technique="contract-based deductive verification of the pipeline stages + bounded run-time contract evaluation end to end"),
  "C12": dict(
@@ -48,7 +54,8 @@ claimed = {
         "breaks); marks are never removed and nothing else is written (frame); the returned list is exactly the unmarked nonterminals of VnSet, so generation is "
         "refused iff some nonterminal is unproductive.",
    note=TB + "That closed + justified-at-marking-time implies LEAST fixpoint is the standard ranking argument, stated not mechanised. Termination of the fixpoint loops is "
-        "not proved. Also proved: RuleVistor.Process appends a right-hand-side symbol only if it is in the identifier table and otherwise stops with the panic `It's not define symbol` (may_panic contract). NOT under contract: the nonterminal-without-rule check and the 2000-state limit in BuildLALR1.",
+        "not proved. Also proved: RuleVistor.Process appends a right-hand-side symbol only if it is in the identifier table and otherwise stops with the panic `It's not define symbol` (may_panic contract). BuildLALR1: a nonterminal identifier becomes a nonterminal symbol; the LR(0) construction is reached only if every nonterminal symbol is the left-hand side of a rule "
+        "and CalculateCanTerminate returned the empty list, otherwise generation stops with its message. NOT under contract: the 2000-state limit.",
    design="§5 C12", technique="contract-based deductive verification (loop invariants + statement-level assertions)"),
  "C17": dict(
    text=DRV + "C17: fmt.Printf is modelled by a ghost output log. TraceShift is proved to log exactly (name of the pushed symbol, pushed state); PushStateSym logs exactly "
@@ -62,10 +69,10 @@ claimed = {
    text="Deductive proof of the leaf operations the canonical-collection construction is built from: InsertItem keeps the representation invariant of an item "
         "set (map == list, no duplicates) and appends exactly when the item is new; InsertGoTO likewise for transitions; LR0.CheckIsExist returns an index iff a state "
         "with exactly the same item list exists (no duplicate states, no two different item sets identified); InsertItemClosure appends with Index == position; "
-        "getItemCloure returns (r,0) for exactly the rules r whose left-hand side is the symbol after the dot (both inclusions); ComputeIClosure leaves the items "
-        "sorted by (rule, dot), which is what makes the position-wise comparison of CheckIsExist a set comparison.",
-   note=TB + "Assumed: sort.SliceStable yields a permutation ordered by its less function. NOT proved: that ComputeIClosure reaches the closure fixpoint and keeps the "
-        "representation invariant (only item well-formedness and sortedness are proved), and the worklist orchestration ComputeGotoItemNoneRec / ComputeAllGoto "
+        "getItemCloure returns (r,0) for exactly the rules r whose left-hand side is the symbol after the dot (both inclusions); ComputeIClosure returns the LEAST closed "
+        "superset of the items it is given (closed: every needed (r,0) is present; justified: every added item is needed by an item of the set; the given items are kept; "
+        "representation invariant kept) and leaves it sorted by (rule, dot), which is what makes the position-wise comparison of CheckIsExist a set comparison.",
+   note=TB + "Assumed: sort.SliceStable yields a permutation ordered by its less function. NOT proved: the worklist orchestration ComputeGotoItemNoneRec / ComputeAllGoto "
         "(state reachability, completeness of transitions, state 0). The bounded LR(1)-merge stand-in of C03 fails when the LR(0) cores are not canonical, but it is "
         "registered under C03, not here.",
    design="§5 C09", technique="contract-based deductive verification of the leaf functions (govc VC generator + SMT)"),
@@ -73,23 +80,28 @@ claimed = {
    text="Deductive proof, on the real relation builders, of the DeRemer-Pennello side conditions: every pair returned by CalcLookbacks satisfies "
         "p --rhs--> q and every pair returned by CaclIncludeRelation satisfies B -> beta A gamma, gamma nullable, p' --beta--> p, stated with the spec "
         "functions spec_step / spec_walk that the helper (*LALR1).walk is proved to compute; seqenceCanEpsilon == all symbols nullable; fetchTransIndex "
-        "finds a transition iff one exists. The check found that both relations ignored the path condition (SLR-like lookaheads), now fixed. The composition "
-        "(Digraph/Traverse/Union, CalcDR, reads) and the exactness of the final lookahead sets are covered by a BOUNDED stand-in that compares every lookahead "
+        "finds a transition iff one exists. The check found that both relations ignored the path condition (SLR-like lookaheads), now fixed. Both relations are also proved COMPLETE (every pair that satisfies the condition is in the "
+        "result; lemma WALKNEG by induction: a failed walk stays failed), the direct-read sets are proved exact (DR(p,A) = terminals shiftable after (p,A), keyed by exactly the "
+        "nonterminal transitions, each entry with its own array - Digraph writes into them), and BuildTrans is proved to list exactly the goto edges and complete items of the "
+        "automaton. The composition (Digraph/Traverse, reads) and the exactness of the final lookahead sets are covered by a BOUNDED stand-in that compares every lookahead "
         "set with the LALR(1) set obtained by merging canonical LR(1) states, on fixed and pseudo-random grammars.",
-   note=TB + "Proved: soundness direction of lookback / includes (no pair without its path condition), walk, fetchTransIndex, seqenceCanEpsilon, fetchReduceTransistor. "
+   note=TB + "Proved: soundness AND completeness of lookback / includes, walk, fetchTransIndex, seqenceCanEpsilon, fetchReduceTransistor (exact), CalcDR, fetchOneDr, BuildTrans. "
         "Axioms STEP/WALK0/WALKS define spec_step/spec_walk over the transition list (consistent under the determinism clause of wfTrans). NOT proved deductively "
-        "(bounded stand-in, <= 3 nonterminals, <= 3 terminals, <= 5 rules, 400 grammars quick / 20000 thorough + 9 fixed): completeness of the relations, CalcDR, "
-        "reads, Digraph/Traverse/Union, and the DeRemer-Pennello theorem itself (literature). The conflict-warning part of C03 rests on CheckAndResolveConflict's "
-        "contract (C04). wfTrans (shape of the transition list) is a precondition, BuildTrans is not yet under contract.",
+        "(bounded stand-in, <= 3 nonterminals, <= 3 terminals, <= 5 rules, 400 grammars quick / 20000 thorough + 9 fixed): the reads relation, "
+        "Digraph/Traverse, CalcLookAheadSet, and the DeRemer-Pennello theorem itself (literature). The conflict-warning part of C03 rests on CheckAndResolveConflict's "
+        "contract (C04). wfTrans (shape of the transition list) is a precondition of the relation builders; BuildTrans proves its entry-by-entry part.",
    design="§5 C03, Appendix A.4", technique="contract-based deductive verification of the relation builders + bounded run-time contract evaluation for Digraph"),
  "C11": dict(
    text="Deductive proof on the real code that (a) a character literal is numbered by its first rune in all three parser sites (found: first byte, fixed), "
         "(b) astDeclareVistor.Process keeps idMaxValue above every value in the identifier table through all declaration loops, keeps explicit values, and "
         "hands out automatic codes that are above the old maximum (hence different from explicit / literal codes and from -1) and pairwise different, "
-        "(c) both builders emit `const NAME = Value` from the table entry of a terminal.",
+        "(c) both builders emit `const NAME = Value` from the table entry of a terminal and translate cases `code -> symbol id` for terminals only, "
+        "(d) the lexer's character-literal token carries a lexeme whose first rune is the character written (sender-side token log), a %token with a number keeps it, a name "
+        "without number or introduced by a precedence line gets 0 = automatic, (e) BuildLALR1 copies name, code and tag of every identifier onto its grammar symbol and gives the "
+        "end marker the code -1.",
    note=TB + "The token cursor parser.next/backup/expect is verified (C13); assumed at the receive site: a character token has a non-empty lexeme. Trusted contracts: SortedIdNames (returns the keys), "
         "utf8.DecodeRuneInString. Interior pointers &IdentifyList[i] are modelled as fresh objects holding a copy (the slice element is never read again). "
-        "Not yet under contract: the copy of the values into grammar symbols (BuildLALR1) and the translate switch (buildTranslate).",
+        "Not proved: that EVERY terminal gets a translate case (only: each case is right and no nonterminal has one). A-seq: the token received is the token sent.",
    design="§5 C11", technique="contract-based deductive verification (govc VC generator + SMT)"),
  "C13": dict(
    text="Deductive termination proof of generation's front end, on the real code, function by function. Lexer: every scanning loop of every state function and "
@@ -100,7 +112,9 @@ claimed = {
         "sent while the channel is open and an EOF token once it is closed (found: it returned a zero Token on which no parser loop stops, `%start` hung; fixed). Parser: "
         "the token cursor next/backup/backup2/expect is verified against a ghost count of fetched tokens (representation invariant of the 3-slot look-back buffer); "
         "parseTokendef, parsePrecList, parseTypeList, parseStartSymbol, parseRule, parseDeclare and Parse's rule loop are proved to consume at least one token per "
-        "iteration and to stop on EOF / Section / Error, with measure `tokens left before the first EOF`.",
+        "iteration and to stop on EOF / Section / Error, with measure `tokens left before the first EOF`. Sender side: every token the lexer sends is proved to satisfy what the "
+        "parser assumes of a received token (EndAt inside the input, non-empty character lexeme), lexer.error always sends its token, and the unterminated-comment loop is proved "
+        "PRODUCTIVE (each iteration consumes input or hands a token to the parser).",
    note=TB + "Hypotheses (axioms, not proved): STREAM - the token stream contains an EOF token at a finite position spec_E() and only EOF tokens after it (this is what run()'s "
         "termination plus the closed-channel step deliver, but the link from the lexer's final emitEOF/close to the receive-side stream is assumption A-seq: unbuffered channel, "
         "one sender, one receiver, goroutine verified as sequential code); TOK - every received token has 0 <= EndAt <= len(input) and a character token has a non-empty lexeme "
@@ -114,7 +128,8 @@ claimed = {
         "run) must be justified in a contract: swap commutation (body(k1);body(k2) and body(k2);body(k1) yield the same state, for every state and all "
         "k1 != k2 - an SMT obligation generated from the real loop body, e.g. GenTable's cell loop), uniqueness of the loop's proved postcondition "
         "(PackTable's output loop), an explicit listed assumption, or an exemption for debug printing; a reachable map range without justification, a "
-        "select, a goroutine outside the lexer, time/rand/unsafe or %p is a failed obligation. The check found the five order-dependent sites "
+        "select, a goroutine outside the lexer, time/rand/unsafe, %p, or a WRITE TO A PACKAGE-LEVEL VARIABLE (state carried from one generation to the next in the same process) "
+        "is a failed obligation. The check found the five order-dependent sites "
         "(auto-numbering, symbol numbering, state numbering, default action ties, constant block), now fixed.",
    note=TB + "Listed assumptions: the relation/worklist slices built from DRSet/ReadSet are used as sets only (Digraph-spec hypothesis), "
         "CheckAndResolveConflict's per-cell loop touches only its own cell, CalculateCanTerminate's result is used for emptiness only, SortedIdNames "
@@ -124,24 +139,31 @@ claimed = {
  "C01": dict(
    text=DRV + "C01: every loop iteration consults T(top state, lookahead); a reduction by r is taken only when the top |rhs r| stack symbols are rhs(r) (lemma L, "
         "proved by induction as two SMT queries) and pushes (goto(top', lhs r), lhs r); accept only in configuration [0, goto(0,S)] on the end marker; "
-        "CheckAndResolveConflict's surviving action is a candidate of its cell.",
-   note=DRVNOTE, design="§5 C01, §3.8, Appendix A.6", technique="contract-based deductive verification of the rendered driver (govc VC generator + SMT, lemma by induction)"),
+        "CheckAndResolveConflict's surviving action is a candidate of its cell; GenTable encodes each cell as error / accept / shift target / -rule of a transition under its "
+        "lookahead; BuildTrans makes the transition list the LR(0) automaton entry by entry (both directions); BuildLALR1 makes grammar rule k+1 the k-th rule of the file built "
+        "from the symbols of the same names; translate() has cases for terminals only. " + STAGES,
+   note=DRVNOTE, design="§S.2 C01, §3.8, Appendix A.6", technique="contract-based deductive verification of the rendered driver (govc VC generator + SMT, lemma by induction)"),
  "C06": dict(
    text=DRV + "C06: every index / nil / type-assertion obligation of the driver functions is discharged under the stack invariant (no crash other than the documented "
         "panic whose text starts with `Grammar error`); the ERROR test precedes the shift (a shift happens only on a cell that is a transition of the automaton); a non-nil "
         "result is returned only in the accepting configuration; both builders emit ERROR_ACTION = nStates+100 and ACCEPT_ACTION = nStates+200 (emits obligations; this "
-        "found the TypeScript constant 0, now fixed).",
+        "found the TypeScript constant 0, now fixed); both translate() builders emit cases for terminals only, so an unknown integer maps to column 0 = error. " + STAGES,
    note=DRVNOTE + " The correct-prefix property and termination of LALR parsing (first bad token, finitely many steps) are literature theorems, not decided by these contracts.",
    design="§5 C06", technique="contract-based deductive verification (safety obligations + emits contracts)"),
  "C07": dict(
    text=DRV + "C07: in ReduceFunc the window Dollar[0..n] is exactly the top n+1 stack entries and $$ starts as a fresh zero value; in Parser those entries carry the "
-        "symbols rhs(r,0..n-1) (lemma L); window size == pop count == |rhs| (emits); the value returned on accept is the ValType of the entry for the start symbol.",
-   note=DRVNOTE + " The text substitution $n -> Dollar[n].<tag> (actionCodeReplace) is not yet under contract; a stale token value at shift is not covered.",
+        "symbols rhs(r,0..n-1) (lemma L); window size == pop count == |rhs| (emits); the value returned on accept is the ValType of the entry for the start symbol. Generator side: actionCodeReplace(Ts) "
+        "replaces `$$` by the field of the left-hand side's tag and every `$<digits>` - the WHOLE digit string, pattern \\$[0-9]+ pinned - by slot <digits> with the tag of right-hand-side "
+        "symbol <digits> (the closure passed to ReplaceAllStringFunc is verified for an arbitrary match); tags flow unchanged from %token/%left lines to identifiers to grammar symbols; "
+        "grammar rule i is paired with action text i-1 (no rule dropped or reordered). " + STAGES,
+   note=DRVNOTE + " regexp matching and ReplaceAllStringFunc calling the function once per match are library behaviour, assumed. %type tags (parseTypeList -> astDeclareVistor) are "
+        "not under a tag contract. A stale token value at shift is not covered.",
    design="§5 C07", technique="contract-based deductive verification of the rendered driver"),
  "C08": dict(
    text=DRV + "C08: the goCode and goObject renderings, packed and unpacked, are verified against the same contract text (renaming StateSymStack/StackPointer to "
-        "c.StackSym/c.Stackpos): each refines the same step specification over T; both builders emit the same constants and per-rule numbers (shared emits clauses).",
-   note=DRVNOTE, design="§5 C08", technique="contract-based deductive verification: two implementations against one contract"),
+        "c.StackSym/c.Stackpos): each refines the same step specification over T; both builders emit the same constants and per-rule numbers (shared emits clauses), the TypeScript builder the same translate cases, reduce cases and $n substitution. "
+        "A fresh stack array per ParserInit in global mode (what object mode gets from a fresh context). " + STAGES,
+   note=DRVNOTE, design="§S.2 C08", technique="contract-based deductive verification: two implementations against one contract"),
  "C15": dict(
    text=DRV + "C15: ParserInit establishes StackPointer==1 with bottom entry (0,$,zero); PushStateSym never writes below the old stack pointer; every stack read of the driver is "
         "below the stack pointer (bounds obligations under INV); $$ of every reduction is a fresh zero value (no state carried between reductions or parses); object-mode "
@@ -154,7 +176,8 @@ claimed = {
         "explicit input-infallible list may follow (fmt.Errorf, WriteFile / WriteString / Close); WriteFile itself is io_only; every function of the "
         "repository is treated as fallible on the input. The obligations are generated from the function bodies in /repo on every run and decided by "
         "govc's effect analysis (call order over the AST, no bound). Completeness of the output: both template constants end with {{.CodeLast}} and "
-        "the TypeScript builder's last WriteString writes b.CodeLast. A failed obligation is replayed by running the real generator on rejected "
+        "the TypeScript builder's last WriteString writes b.CodeLast. Every action of the two template constants reads a FIELD of TemplateBuilder - no method of that name exists, "
+        "no call or pipeline - so nothing input-dependent is evaluated while the file is open. A failed obligation is replayed by running the real generator on rejected "
         "grammars over a pre-existing file.",
    note="Trusted: govc's effect analysis (syntactic: source order of calls, enclosing loop of os.Create, defers), go/types callee resolution. Assumed "
         "input-infallible: text/template New/Parse/Execute on the constant templates with string/bool fields, (*os.File).WriteString/Close, fmt.Errorf. "
@@ -163,7 +186,8 @@ claimed = {
  "C05": dict(
    text="Deductive proof that table compression is lossless: PackTable's postcondition (every non-blank entry retrievable through offset+check, "
         "no blank entry claimed by its row) is proved for every rectangular matrix with quantified loop invariants over all 13 loops, "
-        "UnPackTable equals the lookup spec, SplitActionAndGotoTable is the column split/transposition, and TrySplitTable's postcondition "
+        "UnPackTable equals the lookup spec, SplitActionAndGotoTable is the column split/transposition into NEW arrays (never views of the dense table, which the "
+        "unpacked and TypeScript back ends still emit), the generated Action() of the packed renderings returns the dense entry, and TrySplitTable's postcondition "
         "states, for every (state, symbol), lookup(packed arrays, ActionDef, GoToDef) == dense table entry - the statement of C05 itself. "
         "All index expressions are proved in range.",
    note=TB + "Assumed contract: sort.SliceStable yields a permutation. TrySplitTable requires a table without zero entries and the symbol layout "
@@ -180,7 +204,9 @@ claimed = {
    note=TB + "Under contract: (*LALR1).ResolveConflict, UseDefaultResolveConflict, CheckAndResolveConflict, GenTable's encoding of the surviving action (C01/C02), "
         "and the attachment of precedence in Parser/Vistor.go: astDeclareVistor.Process gives the k-th %left/%right/%nonassoc line level (base)+k with that line's "
         "associativity for each of its symbols (later lines bind tighter); RuleVistor.Process gives every rule the entry of its %prec symbol, else of the LAST right-hand-side "
-        "symbol that has one, else none. Not yet under contract: the copy of these entries onto grammar symbols / rules in BuildLALR1 (SetPrec). Reduce/reduce between two rules "
+        "symbol that has one, else none; parsePrecList gives every entry of a line the associativity of its keyword; BuildLALR1 copies level and associativity (%left -> LEFT, "
+        "%right -> RIGHT, %nonassoc -> NONE) onto terminal symbols, the precedence symbol onto rules, and keeps file order of the rules (first rule wins reduce/reduce). The packing "
+        "contracts (C05) are discharged under this property too: a resolved cell, in particular the error cell of %nonassoc, survives compression. Reduce/reduce between two rules "
         "that both carry precedence is unspecified by C04 and left unconstrained.",
    design="§5 C04", technique="contract-based deductive verification (govc VC generator + SMT)"),
 }
